@@ -133,15 +133,16 @@ def atom_verdicts(ws: Path, c):
     out = []
     for text in c.get("atom_texts") or []:
         try:
-            createFilter(text)
+            flt = createFilter(text)
             exc = None
         except Exception as e:  # noqa
+            flt = None
             exc = type(e).__name__
         verdicts = {}
         for j in c["ws"]["jobs"]:
             try:
                 info = JobInformation((ws / "jobs" / j["task"] / j["hash"]).resolve(), scriptname(j["task"]))
-                verdicts[f"{j['task']}/{j['hash']}"] = bool(createFilter(text)(info))
+                verdicts[f"{j['task']}/{j['hash']}"] = bool(flt(info))
             except Exception:  # noqa
                 verdicts[f"{j['task']}/{j['hash']}"] = None
         out.append(dict(build_exc=exc, verdicts=verdicts))
@@ -150,6 +151,10 @@ def atom_verdicts(ws: Path, c):
 
 def run_clean(ws: Path, c):
     make_ws(ws, c["ws"])
+    return run_clean_on(ws, c)
+
+
+def run_clean_on(ws: Path, c):
     atoms = atom_verdicts(ws, c)
     before, jb = snapshot(ws), jobdirs(ws)
     args = ["jobs", "--workdir", str(ws), "clean"]
@@ -184,7 +189,59 @@ def run_orphans(ws: Path, c):
     return out
 
 
-RUN = dict(filter=run_filter, clean=run_clean, orphans=run_orphans)
+def abstract_ws(ws: Path):
+    """read a workspace produced by the real scheduler back into the abstract form of the cases"""
+    import psutil
+
+    jobs = []
+    for d in sorted((ws / "jobs").glob("*/*")):
+        if not d.is_dir():
+            continue
+        s = scriptname(d.parent.name)
+        pidf = d / f"{s}.pid"
+        alive = False
+        if pidf.is_file():
+            try:
+                alive = psutil.pid_exists(json.loads(pidf.read_text())["pid"])
+            except Exception:  # noqa
+                alive = False
+        tags = json.loads((d / "params.json").read_text())["tags"]
+        jobs.append(dict(task=d.parent.name, hash=d.name, done=(d / f"{s}.done").is_file(),
+                         failed=(d / f"{s}.failed").is_file(), pid=pidf.is_file(), alive=alive, tags=tags))
+    xps = []
+    for x in sorted((ws / "xp").iterdir()):
+        def keys(sub):
+            if not (x / sub).is_dir():
+                return None
+            return sorted([p.parent.name, p.name] for p in (x / sub).glob("*/*"))
+        xps.append(dict(name=x.name, jobs=keys("jobs") or [], bak=keys("jobs.bak")))
+    return dict(jobs=jobs, xps=xps)
+
+
+def run_real(ws: Path, c):
+    """a workspace made by the real scheduler: two experiments, succeeding and failing tagged tasks"""
+    from experimaestro import experiment
+    from vpk_c19 import Ok, Fail
+
+    for name, specs in c["plan"]:
+        try:
+            with experiment(ws, name, port=-1) as xp:
+                xp.workspace.launcher.setenv("PYTHONPATH", os.environ["PYTHONPATH"])   # the job scripts import vpk_c19
+                for cls, x, tags in specs:
+                    t = (Ok if cls == "ok" else Fail)(x=x)
+                    for k, v in tags.items():
+                        t.tag(k, v)
+                    t.submit()
+        except Exception:  # noqa  (FailedExperiment when a task fails)
+            pass
+    w = abstract_ws(ws)
+    c = dict(c, ws=w)
+    out = run_clean_on(ws, c)
+    out["ws"] = w
+    return out
+
+
+RUN = dict(filter=run_filter, clean=run_clean, orphans=run_orphans, real=run_real)
 
 
 def main():
